@@ -138,6 +138,7 @@ class Forced(Strategy):
 
 class Scheduler:
     FAIR_K = 600
+    FAIR_QUANTUM = 400
 
     def __init__(self, strategy=None, step_limit=400000, record_pilot=False):
         self.threads = []
@@ -163,6 +164,7 @@ class Scheduler:
         self.fairness_switches = 0
         self.failed = None
         self.site = None
+        self.protected = None  # (thread, remaining yields) after a fairness switch
 
     # ------------------------------------------------------------- threads
     def count(self, name, n=1):
@@ -293,11 +295,21 @@ class Scheduler:
         if self.pilot is not None:
             self.pilot.append((self.steps, [o.tid for o in others]))
         self.site = site
+        if self.protected is not None:
+            # a thread that got the baton through the fairness rule keeps it
+            # for a quantum (or until it blocks): otherwise a priority-based
+            # strategy hands the baton straight back to the spinning thread
+            pt, left = self.protected
+            if pt is t and left > 0:
+                self.protected = (pt, left - 1)
+                return
+            self.protected = None
         nxt = self.strategy.at_yield(self, t, others)
         if nxt is t and t.run_len > self.FAIR_K:
             # fairness: a thread that spins without blocking loses the baton
             nxt = others[0]
             self.fairness_switches += 1
+            self.protected = (nxt, self.FAIR_QUANTUM)
         if nxt is not t:
             self.preemptions += 1
             self.runq.remove(nxt)
@@ -329,6 +341,22 @@ class Scheduler:
         for t in self.threads:
             if t.state == BLOCKED and pred(t.blocked_on):
                 self._make_runnable(t, reason)
+
+    def stop(self, reason):
+        """called by the running managed thread: end the run here"""
+        t = self.me()
+        self._finish(reason)
+        if t is not None:
+            self._park(t)
+
+    def idle(self):
+        """True if no other thread could run or wake up by itself"""
+        if self.runq:
+            return False
+        for t in self.threads:
+            if t.state == BLOCKED and t.deadline is not None:
+                return False
+        return True
 
     def sleep(self, dt):
         self.block(("sleep",), dt)
